@@ -140,11 +140,21 @@ class Probe:
 
         q.put = put
         tm = dul.artim_timer
+        ops = {"n": 0}
         for name in ("start", "stop", "restart"):
             def mk(name=name, orig=getattr(tm, name)):
                 def f():
                     sim.record("artim", op=name)
-                    return orig()
+                    ops["n"] += 1
+                    res = orig()
+                    if name != "stop" and tm.timeout:
+                        # a timer that was (re)started and then left alone for its whole period must report expiry
+                        def probe(n=ops["n"], t0=sim.now):
+                            if ops["n"] == n:
+                                sim.record("artim_probe", op=name, started_t=t0, expired=bool(tm.expired))
+                        self.artim_due = sim.now + tm.timeout * 1.02 + 0.001
+                        sim.at(self.artim_due, probe)
+                    return res
                 return f
             setattr(tm, name, mk())
 
@@ -466,6 +476,10 @@ def execute(sc, ctx):
         p.lsock.close()
         ut.join()
     ctx.wait_until(lambda: not any(x.is_alive() or x.dul.is_alive() for x in ctx.assocs.values()), 2 * big + 1.0, step=0.005)
+    due = getattr(pr, "artim_due", None)
+    if due is not None and due >= sim.now:
+        # let the period of the last (re)started ARTIM timer pass (virtual time), see instrument()
+        ctx.sleep(due - sim.now + 0.002)
 
 
 # ----------------------------------------------------------------------------- oracle
@@ -559,6 +573,11 @@ def check(sc, r):
         out.append(C.v("effects", "C04/artim-not-stopped/%s" % cell, "%s (%s) must stop ARTIM; timer operations: %s" % (cell, act, ar)))
     elif want_ar in ("start", "restart") and not any(x in ("start", "restart") for x in ar):
         out.append(C.v("effects", "C04/artim-not-started/%s" % cell, "%s (%s) must (re)start ARTIM; timer operations: %s" % (cell, act, ar)))
+    for h in r.hist:
+        if h["kind"] == "artim_probe" and not h["expired"]:
+            out.append(C.v("effects", "C04/artim-started-but-never-expires/%s" % h["op"],
+                           "ARTIM timer %s()ed at t=%.4f and not touched again does not report expiry after its period (seen while judging %s)" % (h["op"], h["started_t"], cell)))
+            break
     closed = any(h["kind"] == "sock_close" for h in window)
     if eff["close"] and not closed:
         out.append(C.v("effects", "C04/connection-not-closed/%s" % cell, "%s (%s) must close the transport connection" % (cell, act)))
@@ -579,6 +598,7 @@ def probes(sc, r):
         d["produced_" + ("injected" if how in ("inject", "inject-pdu") else "real")] = True
     else:
         d["not_produced"] = True
+    d["artim_left_alone_for_its_period_reported_expiry"] = any(h["kind"] == "artim_probe" and h["expired"] for h in r.hist)
     return d
 
 
